@@ -410,7 +410,11 @@ class Graph:
         elif k == "logged":
             obj = Logged(self.node(n["e"]), logging.INFO, "pdl", n["msg"])
         elif k == "computation":
-            obj = Computation(self.node(n["e"]), ChainedEffect(*[CallbackEffect(self._cb(c)) for c in n["effects"]]))
+            effs = [CallbackEffect(self._cb(c)) for c in n["effects"]]
+            obj = Computation(self.node(n["e"]), ChainedEffect(*effs))
+            for eff, c in zip(effs, n["effects"]):
+                if self.nodes[c]["k"] == "value" and not self.nodes[c].get("wrap"):
+                    self.built[c] = self.reg(eff.callback, c)
         elif k in ("funapp", "partial"):
             cls = FunctionApplication if k == "funapp" else PartialApplication
             fk, fv = self.raw_or_node(n["f"])
@@ -537,6 +541,9 @@ class Graph:
             _abstract.__qualname__ = name
             _abstract.__module__ = "pdl"
             obj = abstractdataset(_abstract, **kwargs)
+        for eff, c in zip(obj.effects, d.get("effects") or []):
+            if self.nodes[c]["k"] == "value" and not self.nodes[c].get("wrap"):
+                self.built[c] = self.reg(eff.callback, c)
         if d.get("effects_disabled"):
             obj.disable_effects()
         self.ds_objs[dsid] = obj
@@ -649,7 +656,10 @@ def run_op(g, op):
             g.ov_objs[op["ov"]] = ds.overloads
             g.dss[op["ds"]] = dict(g.dss[op["ds"]], ov=op["ov"])
         elif name == "add_effect":
-            g.ds_objs[op["ds"]].add_effect(g._cb(op["n"]))
+            ds = g.ds_objs[op["ds"]]
+            ds.add_effect(g._cb(op["n"]))
+            if g.nodes[op["n"]]["k"] == "value" and not g.nodes[op["n"]].get("wrap"):
+                g.built[op["n"]] = g.reg(ds.effects[-1].callback, op["n"])
         elif name == "effects_disabled":
             ds = g.ds_objs[op["ds"]]
             ds.disable_effects() if op["v"] else ds.enable_effects()
